@@ -34,6 +34,7 @@ type Engine struct {
 	strContent    bool
 	repoDir       string
 	mirrorUsed    []string
+	activeView    map[string]string // contract key -> proof view being proved right now
 	loadErrs      []string
 	privateNext   bool
 	noLoopFrame   bool
@@ -155,7 +156,53 @@ func (e *Engine) contractFor(f *ssa.Function) *Contract {
 	if f == nil {
 		return nil
 	}
-	return e.cons[funcPkgPath(f)+"."+relName(f)]
+	key := funcPkgPath(f) + "." + relName(f)
+	c := e.cons[key]
+	if c != nil && e.activeView != nil {
+		if v, ok := e.activeView[key]; ok {
+			return c.forView(v)
+		}
+	}
+	return c
+}
+
+// forView returns the contract restricted to one proof view: the ensures and loop clauses of other
+// views are left out (they are proved in their own pass). Everything else is shared.
+func (c *Contract) forView(v string) *Contract {
+	n := *c
+	n.Ensures = nil
+	for _, cl := range c.Ensures {
+		if cl.View == "" || cl.View == v {
+			n.Ensures = append(n.Ensures, cl)
+		}
+	}
+	n.Loops = nil
+	for _, lc := range c.Loops {
+		if lc.View == "" || lc.View == v {
+			n.Loops = append(n.Loops, lc)
+		}
+	}
+	return &n
+}
+
+// ProveFunctionViews proves fn once per declared proof view (or once, if its contract declares none).
+func (e *Engine) ProveFunctionViews(fn *ssa.Function) []*ProofResult {
+	key := funcPkgPath(fn) + "." + relName(fn)
+	c := e.cons[key]
+	if c == nil || len(c.Views) == 0 {
+		return []*ProofResult{e.ProveFunction(fn)}
+	}
+	var out []*ProofResult
+	if e.activeView == nil {
+		e.activeView = map[string]string{}
+	}
+	for _, v := range c.Views {
+		e.activeView[key] = v
+		r := e.ProveFunction(fn)
+		delete(e.activeView, key)
+		out = append(out, r)
+	}
+	return out
 }
 
 // constFuncVar: package-level func variable never stored to outside its initializer -> its initial function.
